@@ -1,6 +1,7 @@
 package gowp
 
 import (
+	"fmt"
 	"go/types"
 )
 
@@ -20,6 +21,9 @@ func (e *Engine) setTypeDeps(st *State, name string, t types.Type) {
 	for r := range st.priv {
 		rt, ok := e.privTypes[r]
 		if !ok || canHold(t, rt, 0) {
+			if traceInline {
+				fmt.Printf("typedeps: value of type %v may hold private %s (type known=%v %v)\n", t, r, ok, rt)
+			}
 			deps = append(deps, r)
 		}
 	}
@@ -71,4 +75,19 @@ func canHold(t, rt types.Type, depth int) bool {
 		return true
 	}
 	return true
+}
+
+// isPrivateValue: the value just stored (a slice, map or pointer) refers to
+// an object that is private.
+func (e *Engine) isPrivateValue(st *State, term string, t types.Type) bool {
+	if t == nil {
+		return false
+	}
+	switch t.Underlying().(type) {
+	case *types.Slice:
+		return e.isPrivateRef(st, sx("sl_reg", term))
+	case *types.Map, *types.Pointer:
+		return e.isPrivateRef(st, term)
+	}
+	return false
 }
